@@ -196,7 +196,8 @@ def query_body(fxml, tzid=None, data=False):
 
 
 def _worker(args):
-    cfg, mode, objects, jobs, tzid = args
+    cfg, mode, objects, jobs, base_tzid = args
+    tzid = base_tzid
     vios = {}
     stats = {"queries": 0, "pairs": 0, "matches": 0, "nontrivial_filters": 0, "requests": 0, "rows": set(), "errors": 0}
     default_tz = ZoneInfo(tzid) if tzid else UTC
@@ -219,13 +220,40 @@ def _worker(args):
                 vio("object-refused:%s" % name, "grid object %s was refused with %s" % (name, dav.effective_status(r)), {"body": body})
                 continue
             stored[name] = s.req("GET", s.url("cal", name)).body
-        for job in jobs:
+        passes = [("", jobs)]
+        if mode == "structure" and jobs and cfg.threshold is not None and cfg.threshold >= 1000:
+            passes.append(("after-delete-and-recreate:", jobs[::3]))
+        for (phase, pjobs) in passes:
+          if phase:
+            # every name is deleted and created again with ANOTHER object's content: nothing may remember the old one
+            names_ = sorted(stored)
+            for n_ in names_:
+                s.req("DELETE", s.url("cal", n_))
+            bodies_ = [objects[n_] for n_ in names_]
+            stored = {}
+            for n_, b_ in zip(names_, bodies_[1:] + bodies_[:1]):
+                r_ = s.req("PUT", s.url("cal", n_), {"Content-Type": B.CT_ICS}, b_)
+                if dav.effective_status(r_) in (201, 204):
+                    g_ = s.req("GET", s.url("cal", n_))
+                    stored[n_] = g_.body
+                    if g_.status != 200 or not ical.same_calendar(g_.body, b_):
+                        # the truth is what was uploaded, not what GET says now
+                        stored[n_] = b_
+                        vio("after-delete-and-recreate:get-serves-old-object", "after DELETE and a new PUT of %s, GET does not serve the new object" % n_, {"name": n_})
+          for job in pjobs:
+            tzid = base_tzid
+            default_tz = ZoneInfo(tzid) if tzid else UTC
             if mode == "time":
-                comp, start, end = job
+                comp, start, end = job[:3]
+                if len(job) > 3:
+                    tzid = job[3]
+                    default_tz = ZoneInfo(tzid) if tzid else UTC
+                job = (comp, start, end)
                 f = R.comp("VCALENDAR", comps=[R.comp(comp, time_range=(start, end))])
                 cls = "time-range"
             else:
                 f, cls = job
+            cls = phase + cls
             fxml = R.to_xml(f)
             want_data = stats["queries"] % 7 == 0
             index_on = cfg.threshold is not None and cfg.threshold < 1000
@@ -288,7 +316,7 @@ def _worker(args):
                     vio(what, "object %s: %s (RFC 4791 9.9 %s)" % (name, direction, detail.get("row", "")), dict(detail, filter=fxml, object=name, body=body))
                 else:
                     what = "structure:%s:%s:%s" % (cls, name.replace(".ics", ""), direction)
-                    parts = [x for x in cls.split(":") if x != "via-index"]
+                    parts = [x for x in cls.split(":") if x not in ("via-index", "after-delete-and-recreate")]
                     if parts[0] in ("text-match", "param-text-match") and parts[1] in ("prefix", "suffix", "infix"):
                         # the disagreement an equality test (instead of RFC 4791 9.7.5 substring) produces, and only that
                         negated = parts[-1] == "negated"
@@ -357,6 +385,18 @@ def run(tier, workers=None):
             chunk = tjobs[i::nw]
             if chunk:
                 jobs_all.append((cfg, "time", tbodies, chunk, tzid))
+    # several time zones interleaved in ONE world: nothing converted for one request's zone may leak into the next
+    mt = []
+    tzs = [None, "America/New_York", "Pacific/Auckland"]
+    for comp in ("VEVENT", "VTODO", "VJOURNAL"):
+        for (a, b) in (ranges[::7] if tier == "quick" else ranges[::2]):
+            for z in tzs:
+                mt.append((comp, a, b, z))
+    tb = {n: b for n, (b, c) in tobjs.items()}
+    k = min(nw, 8)
+    step = (len(mt) + k - 1) // k
+    for i in range(0, len(mt), step):
+        jobs_all.append((cfg, "time", tb, mt[i:i + step], None))
     sfilters = structure_filters()
     sobjs = structure_objects()
     for n in sobjs:
